@@ -173,6 +173,19 @@ fn main() {
                 }
                 any_ok
             }
+            // a compressed block (user codecs): the bytes handed back are the inflater's output - every one of them is
+            // read here, so a buffer that was sized by the announced length and not filled is an error under Miri
+            22 => {
+                use desert_core::BinaryInput;
+                let mut i = desert_core::SliceInput::new(&b);
+                match i.read_compressed() {
+                    Ok(v) => {
+                        std::hint::black_box(v.iter().map(|x| *x as u64).sum::<u64>());
+                        true
+                    }
+                    Err(_) => false,
+                }
+            }
             other => panic!("type {other}"),
         };
         println!("{} {}", i, if ok { "ok" } else { "err" });
